@@ -327,8 +327,10 @@ class ProgramSet(NamedItem):
         for prog in self.programs.values():
             if code_name in prog.target_pops:
                 prog.target_pops.remove(code_name)
-            if (prog.name, code_name) in self.covouts:
-                self.covouts.pop((prog.name, code_name))
+
+        # The covouts are keyed by (parameter, population)
+        for key in [key for key in self.covouts if key[1] == code_name]:
+            self.covouts.pop(key)
 
         del self.pops[code_name]
 
